@@ -197,3 +197,51 @@ Section Stripe.
     forallb (fun k => list_eqb (nth (R + k) (mat st) []) (shift_row (nth k (mat st) []))) (seq 0 (swrap st)).
 
 End Stripe.
+
+(* ---------- the property checker used by the correspondence check ---------- *)
+
+(* What is observed of a StripedSequence through the public API after an operation:
+   the state (matrix, len(), wrap()), the results of Index at sampled positions,
+   count_symbols(), count_symbol(x) for every symbol x in index order, and whether
+   the generic and the AVX2 kernels, run on clones of the buffer, agreed. *)
+Record obs := mkObs {
+  o_st : sseq;
+  o_index : list (nat * res nat);
+  o_counts : res (list nat);
+  o_count1 : res (list nat);
+  o_agree : bool
+}.
+
+Fixpoint res_all {A : Type} (l : list (res A)) : res (list A) :=
+  match l with
+  | [] => Ok []
+  | x :: t => rbind x (fun a => rbind (res_all t) (fun r => Ok (a :: r)))
+  end.
+
+Section Check.
+  Variable K C : nat.
+
+  Definition is_ok_nat (r : res nat) (v : nat) : bool :=
+    match r with Ok v' => v' =? v | _ => false end.
+
+  Definition is_ok_list (r : res (list nat)) (l : list nat) : bool :=
+    match r with Ok l' => list_eqb l' l | _ => false end.
+
+  (* count_symbol for every symbol *)
+  Definition count_each (st : sseq) : res (list nat) :=
+    res_all (map (count_symbol K C st) (seq 0 K)).
+
+  (* the model's observation of a state *)
+  Definition observe (st : sseq) (idx : list nat) : obs :=
+    mkObs st (map (fun i => (i, s_index K C st i)) idx) (count_symbols K C st) (count_each st) true.
+
+  (* check_C04 s ob = true  ->  the observation ob is what property C04 demands of a
+     buffer in which s was striped last (StripeProofs... C04.check_C04_sound) *)
+  Definition check_C04 (s : list nat) (ob : obs) : bool :=
+    check_striped K C s (o_st ob) &&
+    check_wrap_rows K (o_st ob) &&
+    forallb (fun p => if fst p <? length s then is_ok_nat (snd p) (nth (fst p) s (wild K)) else true) (o_index ob) &&
+    is_ok_list (o_counts ob) (lin_counts K s) &&
+    is_ok_list (o_count1 ob) (lin_counts K s) &&
+    o_agree ob.
+End Check.
